@@ -326,7 +326,8 @@ bool Egraph::addDisequality(PtAsgn pa) {
 #ifdef ENABLE_DIST_BOOL // This should be more efficient but osmt1 does not do it
     if (res == true)
 #else
-    if (res && pt.size() == 2)
+    // A distinct that is also an argument of an uninterpreted function must get its truth value in the E-graph
+    if (res && (pt.size() == 2 || logic.appearsInUF(pa.tr)))
 #endif
     {
         bool res2;
